@@ -29,6 +29,7 @@
 #include <unistd.h>
 #include <time.h>
 #include <sys/time.h>
+#include <sys/wait.h>
 #include <new>
 #include <string>
 #include <vector>
@@ -855,6 +856,58 @@ static void on_alarm(int)
    _exit(97);
 }
 
+// The MicroMessage read API does not validate the buffer it is pointed at, so a large share of the malformed inputs ends in
+// a sanitizer report.  Its cases run in a forked child: the report is turned into an ORACLE FAIL line of the case and the
+// harness carries on (otherwise every such case would cost one restart of the whole run).
+static std::string summarize_report(const std::string & err)
+{
+   std::string kind = "abnormal exit", fn = "?";
+   size_t p = err.find("ERROR: AddressSanitizer: ");
+   if (p != std::string::npos)
+   {
+      p += 25; size_t e = p; while((e < err.size())&&(err[e] != ' ')&&(err[e] != '\n')&&(err[e] != ':')) e++;
+      kind = "ASan " + err.substr(p, e-p);
+   }
+   else if ((p = err.find("runtime error: ")) != std::string::npos) {size_t e = err.find('\n', p); kind = "UBSan " + err.substr(p+15, std::min((size_t) 60, e-p-15));}
+   else if ((p = err.find("ASSERTION FAILED")) != std::string::npos) {size_t e = err.find('\n', p); kind = err.substr(p, std::min((size_t) 100, e-p));}
+   size_t q = 0;
+   while((q = err.find(" in ", q)) != std::string::npos)
+   {
+      q += 4; size_t e = q; while((e < err.size())&&(err[e] != ' ')&&(err[e] != '\n')&&(err[e] != '(')) e++;
+      const std::string f = err.substr(q, e-q);
+      if ((f.size() > 1)&&(f.compare(0, 2, "__") != 0)&&(f.find("interceptor") == std::string::npos)&&(f.find("sanitizer") == std::string::npos)&&(f != "main")) {fn = f; break;}
+   }
+   for (size_t i=0; i<kind.size(); i++) if ((kind[i] == '(')||(kind[i] == ')')) kind[i] = ' ';
+   return kind + " in " + fn;
+}
+
+template<class F> static void isolated(int k, const char * what, unsigned watchdog, F body)
+{
+   fflush(stdout);
+   int pe[2]; if (pipe(pe) != 0) {printf("%d -\n%d ORACLE FAIL crash %s: pipe failed\n", k, k, what); return;}
+   const pid_t pid = fork();
+   if (pid == 0)
+   {
+      close(pe[0]); dup2(pe[1], 2); close(pe[1]);
+      alarm(watchdog);
+      std::ostringstream o, orc;
+      body(o, orc);
+      fputs(o.str().c_str(), stdout); fputs(orc.str().c_str(), stdout); fflush(stdout);
+      _exit(0);
+   }
+   close(pe[1]);
+   std::string err; char buf[4096]; ssize_t n;
+   while((n = read(pe[0], buf, sizeof(buf))) > 0) if (err.size() < 200000) err.append(buf, (size_t) n);
+   close(pe[0]);
+   int st = 0; (void) waitpid(pid, &st, 0);
+   if (!((WIFEXITED(st))&&(WEXITSTATUS(st) == 0)))
+   {
+      if ((WIFEXITED(st))&&(WEXITSTATUS(st) == 97)) printf("%d -\n", k);   // the watchdog already printed its ORACLE line
+      else printf("%d -\n%d ORACLE FAIL crash %s: %s\n", k, k, what, summarize_report(err).c_str());
+   }
+   fflush(stdout);
+}
+
 int main(int, char **)
 {
    CompleteSetupSystem css;
@@ -891,9 +944,18 @@ int main(int, char **)
          run_msg(k, build_nest(depth, claim, all), o, orc);
       }
       else if (t == "mini") run_mini(k, all, o, orc, mustAccept);
-      else if (t == "micro") run_micro(k, all, o, orc, mustAccept);
+      else if (t == "micro")
+      {
+         alarm(0);
+         isolated(k, "micro", watchdog, [&](std::ostringstream & co, std::ostringstream & corc) {run_micro(k, all, co, corc, mustAccept);});
+      }
       else if (t == "minigw") run_minigw(k, segs, o, orc);
-      else if (t == "microgw") run_microgw(k, (head.size() > 1) ? (uint32) strtoul(head[1].c_str(), NULL, 10) : 256, segs, o, orc);
+      else if (t == "microgw")
+      {
+         alarm(0);
+         const uint32 bs = (head.size() > 1) ? (uint32) strtoul(head[1].c_str(), NULL, 10) : 256;
+         isolated(k, "microgw", watchdog, [&](std::ostringstream & co, std::ostringstream & corc) {run_microgw(k, bs, segs, co, corc);});
+      }
       else if ((t == "gw")&&(head.size() > 1))
       {
          GwSpec s; s.kind = head[1]; for (size_t i=2; i<head.size(); i++) s.a.push_back(head[i]);
